@@ -359,7 +359,10 @@ def c08_routing_path_valid(ctx, v):
         def hook(ex_, st, callee, args, dty):
             if re.search(r"(?:^|::)verify$", callee):
                 verdict = z3.Bool("verify_verdict!%d" % next(ex_.fresh_counter))   # an explicit free input, one per question asked
-                st.events.append(("call", callee, args, verdict))
+                # snapshot of what was asked: a loop re-uses the local buffer the message was built in, and a
+                # reference kept in the event would later show the NEXT iteration's bytes
+                snap = [ex_.copy_value(ex_.deref_value(x)) if isinstance(x, S.Ref) else x for x in args]
+                st.events.append(("verify_asked", callee, snap, verdict))
                 return verdict
             return None
         ex.on_call = hook
@@ -377,7 +380,7 @@ def c08_routing_path_valid(ctx, v):
             if o.kind != "return":
                 continue
             res = o.value if z3.is_bool(o.value) else (o.value.bv != 0)
-            calls = [e for e in o.events if e[0] == "call" and re.search(r"(?:^|::)verify$", e[1])]
+            calls = [e for e in o.events if e[0] == "verify_asked"]
             conds = []
             for i, h in enumerate(hops):
                 hfrom, hto, hsig = h.fields[0], h.fields[1], h.fields[2]
